@@ -97,16 +97,14 @@ theorem lazyScan_stop {test : Test} (ht : TestQuiet test) (setext : Bool) :
     intro s n l lvl s' h
     simp only [lazyScan] at h
     crack h
-    · rename_i hc
-      obtain ⟨rfl, rfl, rfl⟩ := h
-      refine ⟨rfl, by omega, .inl ⟨rfl, ?_⟩⟩
-      rcases hc with hc | hc
-      · exact .inl hc
-      · exact .inr hc
+    · subst_vars
+      exact ⟨rfl, by omega, .inl ⟨rfl, ‹_ ∨ _›⟩⟩
     · obtain ⟨h1, h2, h3⟩ := ih _ _ _ _ _ h
       exact ⟨h1, by omega, h3⟩
-    · rename_i hc _ _ _ _ hsx hl
-      obtain ⟨rfl, rfl, rfl⟩ := h
+    · have hc : ¬(_ ∨ _) := ‹_›
+      have hsx : setextCheck setext s _ (n + 1) = .ok _ := ‹_›
+      have hl : _ ≠ 0 := ‹_›
+      subst_vars
       simp only [not_or] at hc
       refine ⟨rfl, by omega, .inr (.inl ⟨hl, ?_, by omega⟩)⟩
       unfold setextCheck at hsx
@@ -115,17 +113,28 @@ theorem lazyScan_stop {test : Test} (ht : TestQuiet test) (setext : Bool) :
       · simp only [pure_ok] at hsx; exact absurd hsx.symm hl
     · obtain ⟨h1, h2, h3⟩ := ih _ _ _ _ _ h
       exact ⟨h1, by omega, h3⟩
-    · rename_i hc ind hind h4 lv hsx hl o ho hneg r htest hb
-      obtain ⟨rfl, rfl, rfl⟩ := h
+    · have hc : ¬(_ ∨ _) := ‹_›
+      have hind : s.lineIndent (n + 1) = .ok _ := ‹_›
+      have h4 : ¬ _ ≥ (4 : Int) := ‹_›
+      have ho : s.off (n + 1) = .ok _ := ‹_›
+      have hneg : ¬ _ < (0 : Int) := ‹_›
+      have htest : test _ = .ok _ := ‹_›
+      have hb : _ = true := ‹_›
+      rename_i w _ _ _ _
+      obtain ⟨b, s1⟩ := w
+      simp only at hb
+      subst hb
+      have hr := quiet_restore (ht _ _ _ htest)
+      subst_vars
       simp only [not_or] at hc
-      have hq := ht _ _ _ htest
-      have hr := quiet_restore hq
-      refine ⟨hr, by omega, .inr (.inr ⟨by simpa using hl, ?_⟩)⟩
-      exact ⟨by omega, by simpa using hc.2, ⟨ind, hind, by omega⟩, ⟨o, ho, by omega⟩, ⟨_, by rw [← hb]; exact htest⟩⟩
-    · rename_i hc ind hind h4 lv hsx hl o ho hneg r htest hb
-      have hq := ht _ _ _ htest
-      have hr := quiet_restore hq
-      rw [hr] at h
+      refine ⟨hr, by omega, .inr (.inr ⟨rfl, ?_⟩)⟩
+      exact ⟨by omega, by simpa using hc.2, ⟨_, hind, by omega⟩, ⟨_, ho, by omega⟩, ⟨_, htest⟩⟩
+    · have htest : test _ = .ok _ := ‹_›
+      rename_i w _ _
+      obtain ⟨b, s1⟩ := w
+      have hr := quiet_restore (ht _ _ _ htest)
+      simp only at h
+      rw [show ({ s1 with line := s.line } : BState) = s from hr] at h
       obtain ⟨h1, h2, h3⟩ := ih _ _ _ _ _ h
       exact ⟨h1, by omega, h3⟩
 
